@@ -19,9 +19,27 @@ def least_element_bound(v) -> bool:
     below (virtual probe below every version)."""
     live = v.get("_live") or {}
     objs = [o for o in live.values() if iv.readable(o)]
+    if isinstance(live.get("leafvals"), dict):
+        objs += [o for o in live["leafvals"].values() if iv.readable(o)]
     if not objs or iv.MINV not in iv.bounds(*objs):
         return False
     what = v["what"]
+    if "denote" in what:   # C05's denotation oracle: repeat it with the virtual probe below every version
+        from .specmon import denotation
+
+        pts = iv.points(*objs, bottom=True)
+        if what.startswith("== between"):
+            x, y = live["x"], live["y"]
+            e1 = denotation(live["x_tree"], live["leafvals"], pts)
+            e2 = denotation(live["y_tree"], live["leafvals"], pts)
+            return e1 is not None and e2 is not None and (x == y) == (e1 == e2)
+        r = live["result"]
+        e = denotation(live["tree"], live["leafvals"], pts)
+        if e is None:
+            return False
+        if what.startswith("is_empty()"):
+            return bool(r.is_empty()) == (not any(e))
+        return bool(r.is_any()) == all(e)
     if what.startswith("is_any() disagrees"):
         r = live["result"]
         return r.is_any() == all(iv.vector(r, iv.points(r, bottom=True)))
